@@ -175,6 +175,39 @@ def primitive_steps(name, doc, pool, rnd, n=120):
                         continue
                     out.append((f"nested ReplaceAroundStep({f},{t},{gf},{gt},<{a}({b})>({os_},{oe_}),{ins - os_})",
                                 ReplaceAroundStep(f, t, gf, gt, Slice(frag, os_, oe_), ins - os_, True)))
+        # two such nodes side by side, open two levels on one side: the gap lands deep inside the node
+        # on the *closed* side, whose inner node must still be checked
+        frag2 = Fragment([outer, D.mk_node(S, a, [D.mk_node(S, b, [])])], 8)
+        for (f, t, gf, gt) in ranges[:3]:
+            for os_, oe_, off in ((2, 0, 6), (0, 2, 2), (2, 2, 6), (2, 2, 2), (1, 0, 6), (0, 1, 2)):
+                if off - os_ < 0:
+                    continue
+                for struct in (True, False):
+                    out.append((f"two-node ReplaceAroundStep({f},{t},{gf},{gt},<{a}({b}),{a}({b})>({os_},{oe_}),{off - os_})",
+                                ReplaceAroundStep(f, t, gf, gt, Slice(frag2, os_, oe_), off - os_, struct)))
+    # the same shape aimed at the document: X = a(.. b(..)) followed by a sibling Y; continue X's open
+    # a > b at the end of b, add a second a(b()) and drop Y (the gap) deep inside that second node
+    def visit2(node, pos, parent, index):
+        if node.is_text or node.is_leaf or parent is None:
+            return True
+        last = node.last_child
+        if last is None or last.is_text or last.is_leaf or index + 1 >= parent.child_count:
+            return True
+        y = parent.child(index + 1)
+        a_t, b_t = node.type.name, last.type.name
+        if O.nodes[a_t].has_required_attrs() or O.nodes[b_t].has_required_attrs():
+            return True
+        end_b = pos + node.node_size - 2  # end of b's content
+        gf = pos + node.node_size
+        gt = gf + y.node_size
+        mk = lambda: D.mk_node(S, a_t, [D.mk_node(S, b_t, [])])  # noqa: E731
+        fr = Fragment([mk(), mk()], 8)
+        for struct in (False, True):
+            out.append((f"continue-and-drop ReplaceAroundStep({end_b},{gt},{gf},{gt},<{a_t}({b_t}),{a_t}({b_t})>(2,0),4)",
+                        ReplaceAroundStep(end_b, gt, gf, gt, Slice(fr, 2, 0), 4, struct)))
+        return True
+
+    doc.descendants(visit2)
     return out
 
 
